@@ -24,7 +24,7 @@ def bit (b : Bool) : String := if b then "1" else "0"
 def fmtNew (op : String) (ret : Nat) (s : Stream) : String :=
   match s.internal with
   | none => s!"{op} {ret} seq=- abe=- tin={s.totalIn} tout={s.totalOut} sup=-"
-  | some i => s!"{op} {ret} seq={i.sequence.code} abe={bit i.allowBufError} tin={s.totalIn} tout={s.totalOut} sup={i.supported % 32}"
+  | some i => s!"{op} {ret} seq={i.sequence.name} abe={bit i.allowBufError} tin={s.totalIn} tout={s.totalOut} sup={i.supported % 32}"
 
 /-- Resolves a buffer spec against the current pointer/length (see the harness for the grammar). -/
 def applySpec (spec : String) (cur : Option Nat) (avail : Nat) : Option (Option Nat × Nat) :=
@@ -79,9 +79,8 @@ def fmtCall (r : Result) : String :=
   let tail := match s.internal with
     | none => " seq=- abe=- sav=-"
     | some i =>
-      let sq := i.sequence.code
-      let sav := if 1 ≤ sq ∧ sq ≤ 4 then toString i.availIn else "-"
-      s!" seq={sq} abe={bit i.allowBufError} sav={sav}"
+      let sav := if i.sequence.lockedAction.isSome then toString i.availIn else "-"
+      s!" seq={i.sequence.name} abe={bit i.allowBufError} sav={sav}"
   let args := match r.called with
     | none => " args=-"
     | some (a, _) => s!" args={optStr a.inPtr},{a.inSize},{optStr a.outPtr},{a.outSize},{a.action},0,0"
